@@ -915,3 +915,225 @@ Proof.
   destruct (take_rows 8 (nz out 6) (skipn 7 out)) as [[rws rest]|]; [|discriminate].
   destruct rest; [|discriminate]. exists rws. auto.
 Qed.
+
+(* ------------------------------------------------------------------------------------------ *)
+(* C13: connection ids                                                                        *)
+(* ------------------------------------------------------------------------------------------ *)
+
+Lemma cid_scan_sound : forall lc ls l acc, cid_scan lc ls acc l = true ->
+  forall p r post, l = p ++ r :: post -> cid_check lc ls (rev p ++ acc) r = true.
+Proof.
+  intros lc ls. induction l as [|x t IH]; intros acc H p r post E.
+  - destruct p; discriminate.
+  - cbn [cid_scan] in H. rewrite andb_true_iff in H. destruct H as [H1 H2].
+    destruct p as [|y p]; cbn [app] in E; injection E as E1 E2; subst.
+    + exact H1.
+    + cbn [rev]. rewrite <- app_assoc. cbn [app]. eapply IH; eauto.
+Qed.
+
+(* every row is checked against exactly the rows before it *)
+Theorem cid_rows_checked : forall lc ls l p r post, cid_scan lc ls [] l = true ->
+  l = p ++ r :: post -> cid_check lc ls (rev p) r = true.
+Proof.
+  intros lc ls l p r post H E. pose proof (cid_scan_sound lc ls l [] H p r post E) as G.
+  rewrite app_nil_r in G. exact G.
+Qed.
+
+(* what the check says about a NEW_CONNECTION_ID frame an endpoint sends *)
+Theorem cid_new_sound : forall lc ls pre r, cid_check lc ls pre r = true -> x_k r = 0 ->
+  c_rpt r <= c_seq r /\
+  1 <= c_seq r <= max_of c_seq (filter (kind_of 0 (x_ep r)) pre) + 1 /\
+  (forall o, In o pre -> kind_of 0 (x_ep r) o = true ->
+     (c_seq o = c_seq r -> c_id o = c_id r /\ c_tok o = c_tok r) /\
+     (c_seq o <> c_seq r -> c_id o <> c_id r /\ c_tok o <> c_tok r)) /\
+  (forall o, In o pre -> kind_of 5 (x_ep r) o = true -> c_id o <> c_id r) /\
+  (let rp := Z.max (c_rpt r) (max_of c_rpt (filter (kind_of 0 (x_ep r)) pre)) in
+   let retired := map c_seq (filter (kind_of 3 (x_ep r)) pre) in
+   let seqs := dedup (0 :: c_seq r :: map c_seq (filter (kind_of 0 (x_ep r)) pre)) in
+   Z.of_nat (length (filter (fun s => (rp <=? s) && negb (mem_z s retired)) seqs))
+     <= Z.max 2 (max_of c_seq (filter (kind_of 6 (x_ep r)) pre))).
+Proof.
+  intros lc ls pre r H K. unfold cid_check in H. rewrite K in H. rewrite Z.eqb_refl in H.
+  repeat rewrite andb_true_iff in H. destruct H as [[[[[A B] C] D] E] F].
+  apply Z.leb_le in C, D, E, F. rewrite forallb_forall in A, B.
+  split; [exact E|]. split; [lia|]. split; [|split; [|exact F]].
+  - intros o Ho Ko. assert (Hin : In o (filter (kind_of 0 (x_ep r)) pre)) by (apply filter_In; auto).
+    specialize (A o Hin). split; intros S.
+    + rewrite S, Z.eqb_refl in A. rewrite andb_true_iff in A. destruct A as [A1 A2].
+      apply Z.eqb_eq in A1, A2. auto.
+    + destruct (Z.eqb_spec (c_seq o) (c_seq r)); [contradiction|].
+      rewrite andb_true_iff, !negb_true_iff in A. destruct A as [A1 A2].
+      apply Z.eqb_neq in A1, A2. auto.
+  - intros o Ho Ko. assert (Hin : In o (filter (kind_of 5 (x_ep r)) pre)) by (apply filter_In; auto).
+    specialize (B o Hin). rewrite negb_true_iff in B. apply Z.eqb_neq in B. exact B.
+Qed.
+
+(* ... about a RETIRE_CONNECTION_ID frame it sends *)
+Theorem cid_retire_sound : forall lc ls pre r, cid_check lc ls pre r = true -> x_k r = 1 ->
+  (c_seq r <= max_of c_seq (filter (kind_of 2 (x_ep r)) pre) \/
+   c_seq r < max_of c_rpt (filter (kind_of 2 (x_ep r)) pre)) /\
+  (c_dcid r <> -1 ->
+   (forall o, In o pre -> kind_of 2 (x_ep r) o = true -> c_seq o = c_seq r -> c_id o <> c_dcid r) /\
+   (forall o, In o pre -> kind_of 5 (1 - x_ep r) o = true -> c_seq r = 0 -> c_id o <> c_dcid r)).
+Proof.
+  intros lc ls pre r H K. unfold cid_check in H. rewrite K in H.
+  change (1 =? 0) with false in H. rewrite Z.eqb_refl in H. cbn iota in H.
+  repeat rewrite andb_true_iff in H. destruct H as [[A _] B].
+  split.
+  - rewrite orb_true_iff in A. destruct A as [A|A]; [left; apply Z.leb_le; exact A | right; apply Z.ltb_lt; exact A].
+  - intros N. rewrite orb_true_iff in B. destruct B as [B|B]; [apply Z.eqb_eq in B; contradiction|].
+    rewrite andb_true_iff in B. destruct B as [B1 B2]. rewrite forallb_forall in B1, B2. split.
+    + intros o Ho Ko S. assert (Hin : In o (filter (kind_of 2 (x_ep r)) pre)) by (apply filter_In; auto).
+      specialize (B1 o Hin). rewrite S, Z.eqb_refl in B1. cbn [andb] in B1.
+      rewrite negb_true_iff in B1. apply Z.eqb_neq in B1. exact B1.
+    + intros o Ho Ko S. assert (Hin : In o (filter (kind_of 5 (1 - x_ep r)) pre)) by (apply filter_In; auto).
+      specialize (B2 o Hin). rewrite S, Z.eqb_refl in B2. cbn [andb] in B2.
+      rewrite negb_true_iff in B2. apply Z.eqb_neq in B2. exact B2.
+Qed.
+
+(* ... and about a datagram dropped for an unknown destination id *)
+Theorem cid_drop_sound : forall lc ls pre r, cid_check lc ls pre r = true -> x_k r = 4 ->
+  forall o, In o pre -> (kind_of 0 (x_ep r) o = true \/ kind_of 5 (x_ep r) o = true) ->
+  c_id o = c_id r ->
+  In (c_seq o) (map c_seq (filter (kind_of 3 (x_ep r)) pre)) \/
+  c_seq o < max_of c_rpt (filter (kind_of 0 (x_ep r)) pre).
+Proof.
+  intros lc ls pre r H K o Ho Ko S. unfold cid_check in H. rewrite K in H.
+  change (4 =? 0) with false in H. change (4 =? 1) with false in H. rewrite Z.eqb_refl in H. cbn iota in H.
+  rewrite forallb_forall in H.
+  assert (Hin : In o (filter (kind_of 0 (x_ep r)) pre ++ filter (kind_of 5 (x_ep r)) pre)).
+  { apply in_or_app. destruct Ko as [Ko|Ko]; [left | right]; apply filter_In; auto. }
+  specialize (H o Hin). rewrite S, Z.eqb_refl in H. rewrite orb_true_iff in H.
+  destruct H as [H|H]; [left | right; apply Z.ltb_lt; exact H].
+  clear -H. induction (map c_seq (filter (kind_of 3 (x_ep r)) pre)) as [|y t IH]; cbn [mem_z] in H; [discriminate|].
+  rewrite orb_true_iff in H. destruct H as [H|H]; [left; apply Z.eqb_eq in H; auto | right; auto].
+Qed.
+
+Theorem cid_judge_parts : forall case out, e2e_cid_judge case out = true ->
+  exists rws, take_rows 8 (nz out 6) (skipn 7 out) = Some (rws, []) /\
+    cid_scan (nz out 3) (nz out 4) [] (map mk_xrow rws) = true.
+Proof.
+  intros case out H. unfold e2e_cid_judge in H. destruct (negb _); [discriminate|].
+  destruct (take_rows 8 (nz out 6) (skipn 7 out)) as [[rws rest]|]; [|discriminate].
+  destruct rest; [|discriminate]. exists rws. auto.
+Qed.
+
+(* ------------------------------------------------------------------------------------------ *)
+(* C09 / C10: the sender-side bookkeeping monitor                                             *)
+(* ------------------------------------------------------------------------------------------ *)
+
+(* every row before the close of the connection is checked against the state that the rows
+   before it produce *)
+Theorem cc_scan_sound : forall cc l s, cc_scan cc s l = true ->
+  forall pre r post, l = pre ++ r :: post ->
+  (forall o, In o pre -> x_k o <> 7) -> x_k r <> 7 ->
+  cc_check cc (fold_left cc_upd pre s) r = true.
+Proof.
+  intros cc. induction l as [|x t IH]; intros s H pre r post E Hpre Hr.
+  - destruct pre; discriminate.
+  - cbn [cc_scan] in H. destruct pre as [|p pre]; cbn [app] in E; injection E as E1 E2; subst.
+    + destruct (Z.eqb_spec (x_k r) 7); [contradiction|].
+      rewrite andb_true_iff in H. destruct H as [H _]. exact H.
+    + destruct (Z.eqb_spec (x_k p) 7) as [K|K]; [exfalso; apply (Hpre p); [left; reflexivity | exact K]|].
+      rewrite andb_true_iff in H. destruct H as [_ H]. cbn [fold_left].
+      eapply IH; eauto. intros o Ho. apply Hpre. right. exact Ho.
+Qed.
+
+(* readings of the check *)
+
+(* a packet declared lost was in flight (sent, neither acknowledged nor lost nor discarded
+   before), and - MTU probes aside - a packet with a larger number had been acknowledged *)
+Theorem cc_lost_sound : forall cc s r, cc_check cc s r = true -> x_k r = 2 ->
+  exists u, In u (s_unres s) /\ u_sp u = g_x r /\ u_pn u = g_a r /\
+            (g_c r <> 1 -> g_a r < s_largest s (g_x r)).
+Proof.
+  intros cc s r H K. unfold cc_check in H. rewrite K in H.
+  change (2 =? 0) with false in H. rewrite Z.eqb_refl in H. cbn iota in H.
+  destruct (find (is_pkt (g_x r) (g_a r)) (s_unres s)) as [u|] eqn:F; [|discriminate].
+  apply find_some in F. destruct F as [F1 F2]. unfold is_pkt in F2.
+  rewrite andb_true_iff in F2. destruct F2 as [F2 F3]. apply Z.eqb_eq in F2, F3.
+  exists u. repeat split; auto. intros N.
+  destruct (Z.eqb_spec (g_c r) 1); [contradiction|]. apply Z.ltb_lt in H. exact H.
+Qed.
+
+(* the losses that neither the packet threshold nor the time threshold at the earlier rtt values
+   justify are queued, and every queued loss meets the time threshold at the next rtt values *)
+Theorem cc_pending_sound : forall cc s r, cc_check cc s r = true -> x_k r = 3 ->
+  forall p, In p (s_pending s) -> time_threshold (g_c r) (g_d r) <= fst p.
+Proof.
+  intros cc s r H K p Hp. unfold cc_check in H. rewrite K in H.
+  change (3 =? 0) with false in H. change (3 =? 2) with false in H. rewrite Z.eqb_refl in H. cbn iota in H.
+  repeat rewrite andb_true_iff in H. destruct H as [_ H]. rewrite forallb_forall in H.
+  apply Z.leb_le. auto.
+Qed.
+
+Theorem cc_pending_rule : forall s r, x_k r = 2 ->
+  s_pending (cc_upd s r) = s_pending s \/
+  (exists age, s_pending (cc_upd s r) = (age, g_a r) :: s_pending s /\
+     g_c r <> 1 /\ s_largest s (g_x r) - g_a r < 3 /\ age < time_threshold (s_srtt s) (s_latest s)).
+Proof.
+  intros s r K. unfold cc_upd. rewrite K.
+  change (2 =? 0) with false. change (2 =? 1) with false. rewrite Z.eqb_refl. cbn iota. cbn [s_pending].
+  set (age := match find _ _ with Some u => _ | None => 0 end).
+  destruct ((g_c r =? 1) || (3 <=? s_largest s (g_x r) - g_a r) || (time_threshold (s_srtt s) (s_latest s) <=? age)) eqn:E.
+  - left. reflexivity.
+  - right. exists age. split; [reflexivity|]. repeat rewrite orb_false_iff in E. destruct E as [[E1 E2] E3].
+    apply Z.eqb_neq in E1. apply Z.leb_gt in E2, E3. auto.
+Qed.
+
+(* bytes_in_flight and the minimum window at every recovery metrics event *)
+Theorem cc_metrics_sound : forall cc s r, cc_check cc s r = true -> x_k r = 3 ->
+  (g_time r <> s_discard_t s -> g_b r = s_bif s) /\ 0 <= g_b r /\
+  (if cc =? 0 then 2 else 4) * s_mtu s <= g_a r.
+Proof.
+  intros cc s r H K. unfold cc_check in H. rewrite K in H.
+  change (3 =? 0) with false in H. change (3 =? 2) with false in H. rewrite Z.eqb_refl in H. cbn iota in H.
+  repeat rewrite andb_true_iff in H. destruct H as [[[A B] C] _].
+  apply Z.leb_le in B, C. split; [|split; assumption].
+  intros N. rewrite orb_true_iff in A. destruct A as [A|A]; apply Z.eqb_eq in A; [contradiction | exact A].
+Qed.
+
+(* a congestion controlled packet in normal mode leaves only below the window, or as the one
+   packet after a congestion event; and its number is not in flight already *)
+Theorem cc_sent_sound : forall cc s r, cc_check cc s r = true -> x_k r = 0 ->
+  (forall u, In u (s_unres s) -> ~ (u_sp u = g_x r /\ u_pn u = g_a r)) /\
+  (g_c r = 1 -> g_d r = 0 -> s_bif s < s_cwnd s \/ s_after_cong s = true).
+Proof.
+  intros cc s r H K. unfold cc_check in H. rewrite K in H. rewrite Z.eqb_refl in H.
+  rewrite andb_true_iff in H. destruct H as [A B]. split.
+  - intros u Hu [E1 E2]. rewrite negb_true_iff in A.
+    assert (X : existsb (is_pkt (g_x r) (g_a r)) (s_unres s) = true).
+    { apply existsb_exists. exists u. split; [exact Hu|]. unfold is_pkt. rewrite E1, E2, !Z.eqb_refl. reflexivity. }
+    rewrite X in A. discriminate.
+  - intros C D. rewrite C, D in B. rewrite !Z.eqb_refl in B. cbn [andb] in B.
+    rewrite orb_true_iff in B. destruct B as [B|B]; [left; apply Z.ltb_lt; exact B | right; exact B].
+Qed.
+
+(* the running sum is the sum over the unresolved ack-eliciting packets, whatever the history *)
+Theorem cc_bif_invariant : forall l s, s_bif s = el_bytes (s_unres s) ->
+  s_bif (fold_left cc_upd l s) = el_bytes (s_unres (fold_left cc_upd l s)).
+Proof.
+  assert (P : forall (q : upkt -> bool) l, el_bytes l = el_bytes (filter q l) + el_bytes (filter (fun u => negb (q u)) l)).
+  { intros q. induction l as [|u t IH]; [reflexivity|]. cbn [filter el_bytes fold_right]. fold (el_bytes t).
+    destruct (q u); cbn [negb el_bytes fold_right]; fold (el_bytes (filter q t)); fold (el_bytes (filter (fun u => negb (q u)) t));
+      destruct (u_el u =? 1); lia. }
+  induction l as [|r t IH]; intros s H; [exact H|]. cbn [fold_left]. apply IH.
+  unfold cc_upd.
+  destruct (x_k r =? 0). { cbn [s_bif s_unres el_bytes fold_right u_el u_bytes]. fold (el_bytes (s_unres s)). destruct (g_c r =? 1); lia. }
+  destruct (x_k r =? 1). { cbn [s_bif s_unres]. rewrite (P (covered (g_x r) (g_a r) (g_b r)) (s_unres s)) in H. lia. }
+  destruct (x_k r =? 2). { cbn [s_bif s_unres]. rewrite (P (is_pkt (g_x r) (g_a r)) (s_unres s)) in H. lia. }
+  destruct (x_k r =? 3). { exact H. }
+  destruct (x_k r =? 4). { cbn [s_bif s_unres]. rewrite (P (fun u => u_sp u =? g_x r) (s_unres s)) in H. lia. }
+  destruct (x_k r =? 5). { exact H. }
+  destruct (x_k r =? 6); exact H.
+Qed.
+
+Theorem cc_judge_parts : forall case out, e2e_cc_judge case out = true ->
+  exists rws, take_rows 8 (nz out 5) (skipn 6 out) = Some (rws, []) /\
+    cc_scan (nz out 3) cc_init (filter (fun r => x_ep r =? 0) (map mk_xrow rws)) = true /\
+    cc_scan (nz out 3) cc_init (filter (fun r => x_ep r =? 1) (map mk_xrow rws)) = true.
+Proof.
+  intros case out H. unfold e2e_cc_judge in H. destruct (negb _); [discriminate|].
+  destruct (take_rows 8 (nz out 5) (skipn 6 out)) as [[rws rest]|]; [|discriminate].
+  destruct rest; [|discriminate]. rewrite andb_true_iff in H. exists rws. tauto.
+Qed.
